@@ -122,6 +122,47 @@ pub fn generate(cfg: &Cfg) -> Vec<(String, String)> {
     let mut rng = Rng::new(cfg.seed ^ 0xC13);
     let mut cases = Vec::new();
     let nmat = (if cfg.thorough { 600 } else { 40 }) * cfg.boost;
+    // deep refinement on large scores: narrow matrices whose entries sit a few ulps from 16/24/32/48,
+    // so that attainable scores cluster ~1e-6 apart (the refinement is still running at the 8th and
+    // 9th granularity) and integer scores times the decay exceed 2^24 (any arithmetic narrower than
+    // f64 in the window bookkeeping shows)
+    let ndeep = (if cfg.thorough { 60 } else { 6 }) * cfg.boost;
+    for _ in 0..ndeep {
+        let m = rng.range(3, 4);
+        let mut mat: Vec<[u32; K]> = Vec::new();
+        for _ in 0..m {
+            let mut r = [f32::NEG_INFINITY.to_bits(); K];
+            for j in 0..4 {
+                let base: f32 = *rng.pick(&[16.0f32, 24.0, 32.0, 48.0, -16.0, -32.0, -16.0, 32.0]);
+                r[j] = base.to_bits() + rng.below(4) as u32;
+            }
+            mat.push(r);
+        }
+        let counts = [1usize, 1, 1, 1, 0];
+        let mut inp = Input { m, mat, counts, bg: crate::c12::bg_bits(counts), q: 0, maxit: 9 };
+        let ex = match Exact::new(&inp) {
+            Some(e) => e,
+            None => continue,
+        };
+        // every attainable tail probability (the sums are exact: uniform background), and values
+        // 0.1 % off, capped per instance
+        let mut qs: Vec<(f64, &'static str)> = Vec::new();
+        for &(_, t, exact) in ex.levels.iter() {
+            if exact && t > 0.0 && t < 1.0 {
+                qs.push((t, "p-attainable"));
+                qs.push((t * 0.999, "p-between"));
+            }
+        }
+        let cap = if cfg.thorough { 120 } else { 40 };
+        while qs.len() > cap {
+            let i = rng.below(qs.len());
+            qs.swap_remove(i);
+        }
+        for (x, ql) in qs {
+            inp.q = x.to_bits();
+            cases.push((inp.line("c13sc"), format!("mat-deep-large/bg-uniform/{}", ql)));
+        }
+    }
     for k in 0..nmat {
         let (mut inp, label) = gen_instance(&mut rng, k, cfg.thorough);
         let ex = match Exact::new(&inp) {
